@@ -418,6 +418,25 @@ def check_locked(cfg, tier, seed, replay=None):
             pa_rc, closed, axioms = print_assumptions(cfg["props_file"], log)
             if pa_rc != 0:
                 broken.append({"file": cfg["props_file"], "line": 0, "statement": "?", "error": log[-1][2][-1500:]})
+        # thorough tier: the independent checker re-checks the compiled property file and all it depends on
+        coqchk_info = None
+        if tier == "thorough" and tools_ok and not broken and not os.environ.get("VERIF_NO_COQCHK"):
+            t1 = time.time()
+            mod = "NV." + cfg["props_file"][:-2].replace("/", ".")
+            rc_c, out_c = sh(["timeout", "5400", "coqchk", "-silent", "-o", "-Q", ".", "NV", mod], cwd=COQ, timeout=5500)
+            log.append(("coqchk " + mod, rc_c, out_c[-4000:]))
+            def field(name):
+                m_ = re.search(r"\* " + re.escape(name) + r":\s*(.*?)(?=\n\s*\n|\n\*|\Z)", out_c, re.S)
+                return m_.group(1).strip() if m_ else "?"
+            coqchk_info = {"module": mod, "rc": rc_c, "wall_s": round(time.time() - t1, 1),
+                           "axioms": field("Axioms"),
+                           "type_in_type": field("Constants/Inductives relying on type-in-type"),
+                           "unsafe_fixpoints": field("Constants/Inductives relying on unsafe (co)fixpoints"),
+                           "assumed_positivity": field("Inductives whose positivity is assumed")}
+            bad = rc_c != 0 or any(coqchk_info[k] != "<none>" for k in ("axioms", "type_in_type", "unsafe_fixpoints", "assumed_positivity"))
+            if bad:
+                broken.append({"file": cfg["props_file"], "line": 0, "statement": "coqchk",
+                               "error": "coqchk rc=%s %s\n%s" % (rc_c, json.dumps(coqchk_info), out_c[-1200:])})
     for b in broken:
         problems.append({"kind": "proof", "detail": "proof obligation no longer checks: %s (%s:%d)" % (b["statement"], b["file"], b["line"]),
                          "error": b["error"]})
@@ -540,6 +559,7 @@ def check_locked(cfg, tier, seed, replay=None):
         "trusted_base": cfg.get("trusted_base", []),
         "theorems_closed_under_global_context": closed,
         "axioms": axioms,
+        "coqchk": coqchk_info if coqchk_info else "thorough tier only",
         "broken_obligations": broken[:20],
         "statements": obl_names[:400],
         "evaluations": int(meta.get("evaluations", 0)),
